@@ -1,6 +1,7 @@
 package main
 
 import (
+	"errors"
 	"encoding/hex"
 	"fmt"
 	"reflect"
@@ -249,8 +250,27 @@ func printSwc(sc psatoken.ISwComponent) string {
 	if p == nil {
 		return "nil"
 	}
-	return strings.Join([]string{optStrTok(p.MeasurementType), optHexTok(p.MeasurementValue), optStrTok(p.Version),
-		optHexTok(p.SignerID), optStrTok(p.MeasurementDesc)}, ",")
+	// the optional text fields are read through their getters as well: a getter that disagrees with
+	// the stored field (value vs missing-optional) shows up in the printed component
+	viaGetter := func(field *string, get func() (string, error)) string {
+		want := optStrTok(field)
+		v, err := get()
+		got := ""
+		switch {
+		case err == nil:
+			got = hexTok([]byte(v))
+		case errors.Is(err, psatoken.ErrOptionalFieldMissing):
+			got = "_"
+		default:
+			got = errTok(err)
+		}
+		if got != want {
+			return "getter!" + got + "!field!" + want
+		}
+		return want
+	}
+	return strings.Join([]string{viaGetter(p.MeasurementType, p.GetMeasurementType), optHexTok(p.MeasurementValue), viaGetter(p.Version, p.GetVersion),
+		optHexTok(p.SignerID), viaGetter(p.MeasurementDesc, p.GetMeasurementDesc)}, ",")
 }
 
 func resSwcs(v []psatoken.ISwComponent, err error) string {
